@@ -671,7 +671,7 @@ impl Prop for C14 {
         "C14"
     }
     fn cases(&self) -> (u64, u64) {
-        (100_000, 2_000_000)
+        (400_000, 2_000_000)
     }
     fn rule(&self) -> &'static str {
         "choice bytes -> broad definition (flags, arguments and positionals with deterministic \
